@@ -148,6 +148,30 @@ def pair_fns(base_fns, cur_fns):
     for (ms, ns) in moved.values():
         if len(ms) == 1 and len(ns) == 1:
             out[ns[0]] = ms[0]
+    # a free function over `R: Trait` turned into a provided method of a (private extension) trait, or back:
+    # `m::f(read: &mut R, ..)` <-> `m::Ext::f(&mut self, ..)` - the same name, the same signature with `Self` for `R`
+    left_m = [p for p in missing if p not in out.values()]
+    left_n = [p for p in new if p not in out]
+
+    def self_free(sig):
+        parts = sig.split("|")
+        return "|".join(["fn"] + parts[1:]) if parts and parts[0] in ("fn", "assoc") else sig
+
+    def with_self(sig):
+        # the first generic type name that occurs as `&mut X` / `&X` / `X` on its own stands for Self
+        m = re.search(r"\|&(?:mut )?([A-Z][A-Za-z0-9]*)(?=\||$)", sig)
+        return re.sub(r"(?<![A-Za-z0-9_:])%s(?![A-Za-z0-9_:<])" % re.escape(m.group(1)), "Self", sig) if m else sig
+
+    tm = {}
+    for p in left_m:
+        tm.setdefault((base_name(p), self_free(with_self(base_fns[p]["sig"]))), ([], []))[0].append(p)
+    for p in left_n:
+        k = (base_name(p), self_free(with_self(cur_fns[p]["sig"])))
+        if k in tm:
+            tm[k][1].append(p)
+    for (ms, ns) in tm.values():
+        if len(ms) == 1 and len(ns) == 1 and (container(ns[0]).startswith(container(ms[0])) or container(ms[0]).startswith(container(ns[0]))):
+            out[ns[0]] = ms[0]
     # the same item with its lifetimes written differently (`impl<'a> T for &'a mut X` vs `impl T for &mut X`)
     left_m = [p for p in missing if p not in out.values()]
     left_n = [p for p in new if p not in out]
